@@ -168,9 +168,33 @@ def check_fill(ctx, db):
 
 def check_frame(ctx, db):
     n = 0
+    # RobustPath members (and file-local helpers) that read the path transform, directly or through what they call
+    members = [g for g in db.functions if g.body is not None and g.relfile() == 'src/robustpath.cpp' and ((g.rec or '').endswith('RobustPath') or g.rec is None)]
+    reads = {}
+    for g in members:
+        d = [m for m in g.walk() if m.k == 'MemberExpr' and m.n == 'trafo' and m.rec == 'gdstk::RobustPath']
+        if d:
+            reads[g.qn] = (d[0], [g.name])
+    grew = True
+    while grew:
+        grew = False
+        for g in members:
+            if g.qn in reads:
+                continue
+            for c in g.calls():
+                if c.callee in reads and c.callee != g.qn:
+                    reads[g.qn] = (c, [g.name] + reads[c.callee][1])
+                    grew = True
+                    break
     for name in DIRECT + list(DELEGATING) + ['commands', 'fill_widths_and_offsets']:
         f = db.fn('gdstk::RobustPath::' + name)
         uses = [m for m in f.walk() if m.k == 'MemberExpr' and m.n == 'trafo' and m.rec == 'gdstk::RobustPath']
+        builders = {'gdstk::RobustPath::' + b for b in DIRECT + list(DELEGATING) + ['commands', 'fill_widths_and_offsets']}
+        via = next((c for c in f.calls() if c.callee in reads and c.callee not in builders), None)
+        if not uses and via is not None:
+            ctx.violation('R-EFFECT', 'RobustPath::%s/no-trafo' % name, via.loc(), 'a builder reads `trafo` through %s: a value in the transformed frame flows into a stored section / end_point, so after any transform of the path new sections no longer join the old ones' % ' -> '.join(reads[via.callee][1]))
+            n += 1
+            continue
         n += 1
         ctx.check(not uses, 'R-EFFECT', 'RobustPath::%s/no-trafo' % name, uses[0].loc() if uses else f.loc(), 'the builder does not read the path transform (sections and end_point stay in the untransformed frame)',
                   'a builder reads `trafo`: a value in the transformed frame flows into a stored section / end_point, so after any transform of the path new sections no longer join the old ones')
